@@ -725,6 +725,10 @@ func c02Special(res *eng.Result, ss *sigSet) {
 		tc{"typedef/same-name-in-input-and-output/input", hdr + inOut + `}`, nil, "r/input/x", typeAndDefault},
 		tc{"typedef/same-name-in-input-and-output/output", hdr + inOut + `}`, nil, "r/output/x", typeAndDefault},
 		tc{"typedef/same-name-in-two-notifications/second", hdr + inOut + `}`, nil, "n2/x", typeAndDefault},
+		// names that mean something to the library but are not types of YANG are free for typedefs
+		tc{"typedef/named-any/module-scope", hdr + `typedef any { type int32 { range "1..5"; } default "2"; units "au"; } leaf x { type any; } }`, nil, "x", typeAndDefault},
+		tc{"typedef/named-any/inner-scope", hdr + `container c { typedef any { type string; default "s"; units "cu"; } leaf x { type any; } } }`, nil, "c/x", typeAndDefault},
+		tc{"typedef/named-any/in-grouping-used-twice", hdr + `grouping g { typedef any { type uint8; default "7"; units "gu"; } leaf x { type any; } } container a { uses g; } container b { uses g; } }`, nil, "b/x", typeAndDefault},
 		// the leaf a relative leafref leads to depends on where the grouping is used
 		tc{"leafref/in-grouping-other-target-per-use/first", hdr + `grouping g { leaf r { type leafref { path "../a"; } } } container u1 { leaf a { type uint8; } uses g; } container u2 { leaf a { type string; } uses g; } }`, nil, "u1/r", func(l meta.Leafable) string { return l.Type().Resolve().Format().String() }},
 		tc{"leafref/in-grouping-other-target-per-use/second", hdr + `grouping g { leaf r { type leafref { path "../a"; } } } container u1 { leaf a { type uint8; } uses g; } container u2 { leaf a { type string; } uses g; } }`, nil, "u2/r", func(l meta.Leafable) string { return l.Type().Resolve().Format().String() }},
@@ -735,7 +739,7 @@ func c02Special(res *eng.Result, ss *sigSet) {
 		tc{"leafref/relative-path-in-typedef", hdr + `typedef rt { type leafref { path "../a"; } } container c { leaf a { type int8; } leaf r { type rt; } } }`, nil, "c/r", func(l meta.Leafable) string { return l.Type().Resolve().Format().String() }},
 		tc{"leafref/with-key-predicate", hdr + `list l { key name; leaf name { type string; } leaf v { type uint32; } } leaf sel { type string; } leaf r { type leafref { path "/l[name=current()/../sel]/v"; } } }`, nil, "r", func(l meta.Leafable) string { return l.Type().Resolve().Format().String() }},
 	)
-	want := map[string]string{"typedef/same-name-in-sibling-scopes/first": "int32/true/5/n", "typedef/same-name-in-sibling-scopes/second": "string/true/low/s",
+	want := map[string]string{"typedef/named-any/module-scope": "int32/true/2/au", "typedef/named-any/inner-scope": "string/true/s/cu", "typedef/named-any/in-grouping-used-twice": "uint8/true/7/gu", "typedef/same-name-in-sibling-scopes/first": "int32/true/5/n", "typedef/same-name-in-sibling-scopes/second": "string/true/low/s",
 		"typedef/same-name-in-two-groupings/first": "uint8/true/1/", "typedef/same-name-in-two-groupings/second": "boolean/true/true/",
 		"typedef/same-name-in-input-and-output/input": "int64/false//", "typedef/same-name-in-input-and-output/output": "string/false//", "typedef/same-name-in-two-notifications/second": "uint16/false//",
 		"leafref/in-grouping-other-target-per-use/first": "uint8", "leafref/in-grouping-other-target-per-use/second": "string", "leafref/from-a-case": "uint16", "leafref/from-a-case-of-a-nested-choice": "uint16", "leafref/two-steps-up-from-a-nested-case": "int64", "leafref/relative-path-in-typedef": "int8", "leafref/with-key-predicate": "uint32",
